@@ -182,6 +182,19 @@ def oracle_c17(chk, rec):
                 T.key_of(st["max_ph"][k]) != T.key_of(st["population_ph"][k][i]):
             chk.fail("max_fitness / max_g / max_ph of an entry are not the first arg-max of that entry's population", {**d, "generation": k}, feats(rec, "consistent"))
             return
+    # every value handed to the statistics must still be there unchanged (deep copy taken at record time)
+    per_key = {}
+    for upd in getattr(rec, "stat_updates", []):
+        for key, val in upd.items():
+            per_key.setdefault(key, []).append(val)
+    for key, vals in per_key.items():
+        for k, val in enumerate(vals):
+            now = st[key][k] if key in st and k < len(st[key]) else None
+            same = (now == val) if isinstance(val, dict) else (now is not None and T.key_of(now) == T.key_of(val))
+            if not same:
+                chk.fail("a statistics entry no longer holds the value that was recorded (altered after recording)",
+                         {**d, "series": key, "generation": k}, feats(rec, "snapshot"))
+                return
     if rec.cfg.get("init_population") is not None:
         if T.key_of(np.asarray(st["population_g"][0])) != T.key_of(np.asarray(rec.cfg["_init_copy"])):
             chk.fail("population_g[0] is not the supplied init_population", d, feats(rec, "init"))
